@@ -27,7 +27,7 @@ func init() {
 		Assumptions: []string{"restarts need the real clock; all data stays far inside the retention", "values of PERCENTILE fields themselves are not judged (they act as wide neighbours)"},
 		Cases: func(tier string) int {
 			if tier == "quick" {
-				return 10
+				return 30
 			}
 			return 200
 		},
